@@ -92,6 +92,36 @@ theorem sound_counterexample_declared_type :
     getMutability false (.deref p) true false = .mutable ∧ verdict (.deref p) = .readonly := by
   decide
 
+/-- `arr : [2]i32 : ..; p := ^arr; pp := ^mut p; pp[1] = 50;` — indexing follows BOTH pointer levels,
+the data is reached through the immutable inner one: read-only. The walk without
+`innermost_auto_deref` (the pinned function, and the tree before the second `fix:` commit of C14)
+looks at the outermost pointer only and accepts; the fixed function rejects. The same for
+`pp.field`. -/
+theorem sound_counterexample_double_pointer_index :
+    let arr := Expr.loc false (.arr .int) (.arrayLit .int)
+    let p := Expr.loc true (.ptr false (.arr .int)) (.ref false arr)
+    let pp := Expr.loc true (.ptr true (.ptr false (.arr .int))) (.ref true p)
+    typeOf (.index pp) = some .int ∧ verdict (.index pp) = .readonly ∧
+    getMutability false (.index pp) true false = .mutable ∧
+    getMutability true (.index pp) true false = .immutableRef := by
+  decide
+
+theorem sound_counterexample_double_pointer_member :
+    let s := Expr.loc false (.struct 1) (.structLit (.struct 1))
+    let p := Expr.loc true (.ptr false (.struct 1)) (.ref false s)
+    let pp := Expr.loc true (.ptr true (.ptr false (.struct 1))) (.ref true p)
+    typeOf (.member pp .int) = some .int ∧ verdict (.member pp .int) = .readonly ∧
+    getMutability false (.member pp .int) true false = .mutable ∧
+    getMutability true (.member pp .int) true false = .immutableRef := by
+  decide
+
+/-- the other way round is accepted: `q : ^ ^mut [2]i32; q[1] = 5` writes through the `^mut` inner
+pointer (as the explicit `q^^[1] = 5` does) -/
+example :
+    let q := Expr.param (.ptr false (.ptr true (.arr .int)))
+    verdict (.index q) = .writable ∧ getMutability true (.index q) true false = .mutable := by
+  decide
+
 /-- `pp := ^mut p; q := pp^; q^ = 5;` with `p : ^i32`: `q : ^i32`, accepted because the walk
 through `q`'s initialiser ends at `^mut p`. -/
 theorem sound_counterexample_copied_pointer :
